@@ -19,6 +19,10 @@ CLAIMED = {
         text="Proof of post-conditions written from the cEMI bit layout (not from the code): flag constructors/accessors over their whole 8-bit domains (Control1Prio, Control2Hops, Hops incl. Hops(Control2Hops(h)) == min(h,7), IsGroupAddr, IsGroupCommand); byte-exact layout of Info.Pack, AppData.Pack, ControlData.Pack and of LData.Pack (control fields, big-endian addresses, length octet, TPCI/APCI split, payload placement); and exact field extraction from any accepted byte string by Info.Unpack, unpackTransportUnit and LData.Unpack (the latter verified against callee bodies, 'exact' mode).",
         note="Assumes as C01/C15. LData.Pack's post-condition restates the additional-info length octet but not the info bytes (those are Info.Pack's contract; the quantified restatement did not discharge). LData.Pack obligations need up to ~60 s each on z3 5.1 (timeout 150 s in the contract). The message-code octet is written by cemi.Pack (inline dispatcher) and covered by C15/C02 only.",
         ref="§3 C11"),
+    "C08": dict(
+        text="Proof for Unpack, String and Unit of every datapoint type in package dpt (174 types, 522 functions, each under its own contract): no panic for any byte slice of any length and capacity; a payload whose length differs from the fixed length of the type's main number is rejected (28.001: fewer than 2 bytes); and on success the decoded value lies in the documented range (9.xxx bounds in bit-precise float32 arithmetic, 5.001 in [0,100], 5.003 in [0,360], time of day, calendar date 1990..2089 with the right month lengths, scene numbers). String/Unit: no panic for in-range values.",
+        note="Assumes: go/ssa semantics, 64-bit int, SMT FloatingPoint theory = IEEE-754 binary32/64 with round-to-nearest-even as on amd64 (no FMA fusion), fmt.Sprintf/Errorf/errors.New return some string/non-nil error, time.Date normalises exactly the invalid civil dates (conformance test in the thorough tier), []rune/string conversions as abstract UTF-8 codecs. The 9.xxx range bounds in the contract file were read once from the documented ranges and frozen.",
+        ref="§3 C08"),
 }
 
 NA = {
